@@ -46,7 +46,8 @@ def clusters_plan_st(draw, tier):
                     exact_only=True)
     h.fit()
     for _ in range(draw(st.integers(0, 5))):
-        gen.step_any(h, ["partial_fit", "partial_fit", "fit", "add_arm", "remove_arm"])
+        gen.step_any(h, ["partial_fit", "partial_fit", "fit", "add_arm", "remove_arm", "predict",
+                         "predict_expectations"])
     queries = draw(gen.contexts_st(draw(st.integers(1, 4)), h.d, h.grid))
     return {"config": cfg, "ops": h.ops, "queries": queries}
 
@@ -202,7 +203,9 @@ def tree_plan_st(draw, tier):
                     exact_only=True)
     h.fit()
     for _ in range(draw(st.integers(0, 6))):
-        gen.step_any(h, ["partial_fit", "partial_fit", "partial_fit", "fit", "add_arm", "remove_arm"])
+        # queries in the middle of the history: whatever a prediction leaves behind must not survive a later fit
+        gen.step_any(h, ["partial_fit", "partial_fit", "partial_fit", "fit", "add_arm", "remove_arm", "predict",
+                         "predict_expectations"])
     queries = draw(gen.contexts_st(draw(st.integers(1, 4)), h.d, h.grid))
     return {"config": cfg, "ops": h.ops, "queries": queries, "tree_parameters": dict(tp)}
 
